@@ -78,3 +78,42 @@ def REF_LOOK(s, x, before, after):
     if after != '':
         t = t + after + OT(x) + ')'
     return t
+
+
+# ---- matching API ---------------------------------------------------------------------------------------------
+
+def SPEC_MATCHES(p, t):
+    return [m.group(0) for m in FINDITER(p, t)]
+
+
+def SPEC_MATCHES_POS(p, t):
+    return [(m.group(0), m.start(0), m.end(0)) for m in FINDITER(p, t)]
+
+
+def SPEC_WINDOWS(p, t, nl, nr):
+    return [t[max(m.start(0) - nl, 0):min(m.end(0) + nr, len(t))] for m in FINDITER(p, t)]
+
+
+def SPEC_CAPTURES(p, t, include_empty):
+    if include_empty:
+        return [m.groups() for m in FINDITER(p, t)]
+    return [tuple(g for g in m.groups() if g != '') for m in FINDITER(p, t)]
+
+
+def SPEC_NAMED(p, t, include_empty):
+    if include_empty:
+        return [m.groupdict() for m in FINDITER(p, t)]
+    return [{k: v for k, v in m.groupdict().items() if v != ''} for m in FINDITER(p, t)]
+
+
+def SPEC_CAPPOS(p, t, include_empty, relative):
+    return [CAPPOS(m, include_empty, relative, NGROUPS(p)) for m in FINDITER(p, t)]
+
+
+def SPEC_NAMEDPOS(p, t, include_empty, relative):
+    return [NAMEDPOS(m, include_empty, relative, NNAMED(p)) for m in FINDITER(p, t)]
+
+
+def SPEC_SPLIT(p, t):
+    n = NMATCHES(p, t)
+    return APPENDED(SPLITS(p, t, n), t[PREVEND(p, t, n):])
